@@ -435,6 +435,7 @@ Proof.
   destruct (negb (hashes_to (cs_pblock s) h)); [eapply P; exact Eq|].
   destruct (cs_pblock s) as [pb|]; [|eapply P; exact Eq].
   destruct (negb (b_valid pb)); [eapply P; exact Eq|].
+  destruct (negb (match cs_pparts s with Some p => pt_complete p | None => false end)); [eapply P; exact Eq|].
   unfold seq, emit in Eq. rewrite Hh in Eq.
   destruct (update_to_next_height E s) as [s2 o2] eqn:Eu. injection Eq as <- <-.
   pose proof (update_to_next_height_good s s2 o2 Hh Eu) as [A B].
